@@ -545,6 +545,33 @@ def parser_errors(F, rep):
     rep.count("parser_error_constructions", n)
 
 
+def error_locations(F, rep):
+    """R7 (the error identifies the offending line): a pest error coming up from a child consumer carries the child's position; the
+    consumers pass it on as it is. A `map_err` on a `Result<_, pest::Error>` whose closure builds a NEW error (`input.error(..)`,
+    `Error::new_from_span`) re-locates it to wherever that node starts — for the list consumer, line 1 (seeded change C13-s5)."""
+    from mir import Terms, parse_callee
+    n = 0
+    for b in F.bodies.values():
+        if b.crate != "cgt_core" or "::parser::" not in b.id or b.kind == "closure":
+            continue
+        tb = None
+        for i, t in b.calls():
+            if parse_callee(t["callee"])[2] != "map_err" or "pest::error::Error<" not in (t.get("aty") or [""])[0] or len(t["args"]) < 2:
+                continue
+            n += 1
+            tb = tb or Terms(F, b, inline_depth=0)
+            clo = tb.operand(t["args"][1])
+            rebuilt = False
+            if isinstance(clo, tuple) and clo and clo[0] == "closure" and clo[1] in F.bodies:
+                cb = F.bodies[clo[1]]
+                rebuilt = any(u["callee"].endswith("Node::<'i, R, D>::error") or "::error::Error::<R>::new_from" in u["callee"] or
+                              (parse_callee(u["callee"])[2] == "error" and "pest_consume" in u["callee"]) for _, u in cb.calls())
+            rep.ob("R7", f"{b.short}:child-error-kept@{i}", not rebuilt, "the child's pest error is passed on with its own position" if not rebuilt else
+                   f"`{b.short}` replaces a child consumer's error by a new one built on its own node: the reported line and column are those of the "
+                   "enclosing rule, not of the offending token", b.loc(t["sp"]), key=f"R7:{b.short}:child-error-relocated")
+    rep.count("pest_error_map_err_sites", n)
+
+
 def currency_case(F, rep):
     """R8 (case of currency codes): the grammar accepts a code in any case (R3 looks at keywords, the code itself is
     ASCII_ALPHA{3}); the ISO table is upper-case, so the consumer must fold the case before the look-up — otherwise `usd` parses
@@ -576,6 +603,7 @@ def run(ctx, rep):
     currency_lookahead(S, g, rep)
     defaults(S, g, rep)
     parser_errors(ctx.F, rep)
+    error_locations(ctx.F, rep)
     currency_case(ctx.F, rep)
     # "a missing final newline" also at the seam between two input files: the CLI joins them with a line break (shared with
     # C06-R4); glued together, the last line of one file and the first of the next become one line — rejected, or swallowed
